@@ -187,7 +187,7 @@ PROPERTY = {
         'text': "Lean 4 theorems over a model of fmt's writer side that INTERPRETS the table extracted from writer.rs / fmt_subscriber.rs on every run (guard and inner method called by every MakeWriter combinator's make_writer / "
                 "make_writer_for, Tee / Either write_all forwarding, and how often on_event asks the maker and writes): routes_denote — for every writer expression of any depth and every metadata the writer returned by "
                 "make_writer_for reaches exactly the sinks the expression denotes, each asked with make_writer_for(meta) all the way down; one_write_per_record — one maker call with the record's metadata and one write of the "
-                "whole buffer per record; no_duplicate_delivery. The model is compared with the real fmt subscriber (full / compact / pretty / json, option combinations, span lifecycle records) over recording sinks, and every "
+                "whole buffer per record; no_duplicate_delivery; over histories of every length history_routes (sinks written = concatenation of the denotations, in record order), history_exact_per_sink (writes to a sink = number of records selecting it), history_silent_sink. The model is compared with the real fmt subscriber (full / compact / pretty / json, option combinations, span lifecycle records) over recording sinks, and every "
                 "write call is judged to be one complete newline-terminated record naming the level, the spans in scope in order with their fields and the event's fields and nothing foreign — including after a formatter panic "
                 "and under 1-8 concurrently emitting threads.",
         'note': "Trusted: Lean kernel; propext/Classical.choice/Quot.sound; the record TEXT is judged on the implementation's output (containment, order, line structure), not modelled; timestamps off, ANSI off; the sink's write() accepts "
@@ -197,7 +197,8 @@ PROPERTY = {
     'lean_module': 'TracingModel.Props.C13',
     'namespace': 'C13',
     'units': ['WriterRouting'],
-    'required_theorems': ['C13.table_facts', 'C13.on_event_facts', 'C13.routes_denote', 'C13.one_write_per_record', 'C13.no_duplicate_delivery'],
+    'required_theorems': ['C13.table_facts', 'C13.on_event_facts', 'C13.routes_denote', 'C13.one_write_per_record', 'C13.no_duplicate_delivery',
+                          'C13.history_routes', 'C13.history_exact_per_sink', 'C13.history_silent_sink'],
     'streams': [_s],
     'rule': 'one case = a formatter (full/compact/pretty/json) with random options (target, level, thread id/name, file/line, span events mask, json span/list/flatten), a writer expression of depth <=3 over recording sinks '
             '(with_max_level, with_min_level, with_filter, and, or_else, boxed), and 5-18 ops: events at any level/target with 0-3 typed fields, nested spans with fields (new/enter/exit/close records per mask), an event whose '
